@@ -3,6 +3,7 @@ package main
 import (
 	"os"
 	"runtime"
+	"sort"
 	"strings"
 	"sync"
 	"sync/atomic"
@@ -126,6 +127,8 @@ func runSpecs(c *Ctx, specs []*Spec) *Result {
 		}
 		specs = f
 	}
+	// smallest first: time a small specification does not need flows to the larger ones, the largest runs last
+	sort.SliceStable(specs, func(i, j int) bool { return specWeight(specs[i]) < specWeight(specs[j]) })
 	wsum := 0
 	for _, s := range specs {
 		if s.Weight <= 0 {
@@ -150,7 +153,22 @@ func runSpecs(c *Ctx, specs []*Spec) *Result {
 		res.Runs = append(res.Runs, st)
 		if f != nil {
 			res.Found = f
-			break
+			return res
+		}
+	}
+	// second pass: specifications that ran out of their share are run again with whatever time is left
+	for i, s := range specs {
+		if i >= len(res.Runs) || res.Runs[i].Exhaustive || time.Until(c.Deadline) < 5*time.Second {
+			continue
+		}
+		s.Deadline = c.Deadline
+		st, f := Explore(s, c.KF)
+		if st.DepthDone >= res.Runs[i].DepthDone {
+			res.Runs[i] = st
+		}
+		if f != nil {
+			res.Found = f
+			return res
 		}
 	}
 	return res
@@ -204,4 +222,15 @@ func runSpecsParallel(c *Ctx, specs []*Spec) *Result {
 		}
 	}
 	return res
+}
+
+func specWeight(s *Spec) int {
+	if s.Weight > 0 {
+		return s.Weight
+	}
+	w := 1
+	for d := 4; d < s.MaxDepth; d++ {
+		w *= 2
+	}
+	return w
 }
